@@ -887,6 +887,18 @@ func c19ErrorSide(c *core.Ctx, r *core.Rand) {
 	if ny <= 9999 {
 		bad = append(bad, fmt.Sprintf("%04d-02-29", ny), fmt.Sprintf("02/29/%04d 11:00:00", ny))
 	}
+	// a day the month does not have, in every spelling of the time of day / zone the smart parser advertises
+	{
+		md := [][2]int{{2, 30}, {2, 31}, {4, 31}, {6, 31}, {9, 31}, {11, 31}}
+		if y%4 != 0 || (y%100 == 0 && y%400 != 0) {
+			md = append(md, [2]int{2, 29}, [2]int{2, 29})
+		}
+		p := md[r.Intn(len(md))]
+		tod := r.Pick("", "T10:00:00", "T10:00:00Z", "T23:59:59Z", "T00:00:00Z", "T10:00:00+02:00", "T10:00:00-0700", " 10:00:00", "T10:00:00.123Z", "T12:34:56Z")
+		for i := 0; i < 3; i++ {
+			bad = append(bad, fmt.Sprintf("%04d-%02d-%02d%s", y, p[0], p[1], tod))
+		}
+	}
 	s := bad[r.Intn(len(bad))]
 	fromTZ, toTZ := optZone(c, r), optZone(c, r)
 	c.Inc("unparsable_input")
